@@ -78,6 +78,9 @@ func fixedPoint[T any](t *testing.T, k codec[T], b []byte) {
 		if fp == "" {
 			fp = "C14/fuzz/" + k.target + "/" + generic
 		}
+		if known(fp) {
+			return // listed finding: reproduced once per run by TestC14_Regress_KnownFindings
+		}
 		stats.Violation(t, "fuzz", fp, fmt.Sprintf(format, a...), map[string]any{"target": k.target, "input": hx(b)})
 	}
 	y, err, p := safely(func() (T, error) { return k.dec(b) })
